@@ -34,7 +34,8 @@ def run_one(module, func, timeout, env=None, extra=()):
     e["PYTHONHASHSEED"] = "0"
     if env:
         e.update({k: str(v) for k, v in env.items()})
-    cmd = [os.path.join(VERIF, ".venv/bin/crosshair"), "check", "--report_all",
+    venv = os.environ.get("VERIF_VENV") or os.path.join(VERIF, ".venv")
+    cmd = [os.path.join(venv, "bin/crosshair"), "check", "--report_all",
            "--per_condition_timeout", str(timeout), *extra, f"{path}:{ln + 1}"]
     t0 = time.time()
     try:
